@@ -1814,7 +1814,17 @@ impl FunctionDef {
                 for (idx, expected_arg) in expected_args.iter().enumerate() {
                     match expected_arg {
                         LambdaArg::Required(arg_name) => {
-                            local_bindings.insert(arg_name.clone(), args[idx]);
+                            // The arity check counts required parameters wherever they are
+                            // declared, so one that follows an optional parameter can still
+                            // be missing here
+                            let value = args.get(idx).copied().ok_or_else(|| {
+                                RuntimeError::new(format!(
+                                    "{} was called without its required argument \"{}\"",
+                                    self.get_name(),
+                                    arg_name
+                                ))
+                            })?;
+                            local_bindings.insert(arg_name.clone(), value);
                         }
                         LambdaArg::Optional(arg_name) => {
                             local_bindings.insert(
